@@ -1,5 +1,6 @@
 import CssVerif.Model.EncutilsDoc
 import CssVerif.Model.EncutilsXml
+import CssVerif.Model.EncutilsTry
 open CssVerif.Proto CssVerif.Encutils
 
 /-- optional string on the wire: `N` = None, otherwise dotted hex (`-` = empty) -/
@@ -120,6 +121,11 @@ def handle (line : String) : String :=
         | .ok i => showInfo i
         | .error e => "ERR " ++ showErr e
       | _, _, _, _, _, _, _ => "bad-op"
+  | ["try", u, d] => match decBool u, (decCps d).bind toBytes with
+      | some u, some b => match tryEncodings u b with
+        | some r => "OK " ++ encOpt r
+        | none => "UNMODELLED"
+      | _, _ => "bad-op"
   | ["strict", d] => match decCps d with
       | some l => match parseXmlDecl l with
         | some (e, rest) => "WF " ++ encOpt e ++ " " ++ toString (l.length - rest.length)
